@@ -13,7 +13,13 @@ RULE = ("kinds mat.histeq (exact tier) / mat.hist (float tiers) / mat.norms / ma
         "(<=4x4 thorough) with every index argument 0..dim+1 (out-of-range included), (p) every ordered pair of 24 editing operations "
         "(in-range arguments) on 1x1, 2x2, 3x2, 2x3, each as its own two-step history (+3000 sampled triples, thorough), (n) the four "
         "f64 norms on every shape 0..B x 0..B and norm_p for p in {1,1.5,2,3,4}, (c) seeded random histories of up to 40 operations "
-        "(rat, f64, Complex); in the exact tier every state dump is followed by the derived PartialEq of the matrix against a freshly "
+        "(rat, f64, Complex); round four: (v) every scalar-argument operation x the values 0, 1, -1, 2, 1/2 x every shape 0..3 x 0..3, operands of "
+        "special structure (zero matrix, the matrix itself, identity, unit triangular, cyclic shift, zero / ones / unit vectors), both operands the SAME "
+        "object (&m + &m, &m - &m, &m * &m; also after editing steps), op-pairs on 1x3, 3x1, 0x2, 2x0, 1x2, 3x3 (one per seed; all thorough), "
+        "f64 * matrix with 0, -0.0, +-1, 2, 1/2 on empty / single-row / single-column / wide / tall shapes, f64 and Complex histories with scalars and "
+        "entries from the special menus (axes, unit modulus, |re| = |im|) judged by a numpy list-of-rows reference, norms on tie / single-entry / "
+        "signed-zero patterns with norm_p at p = 1, 2, 1/2, the constructors new(r, c, x) / empty() for every shape 0..4 x 0..4, products / transposes / row and "
+        "column access / norms with a dimension in 9..20; in the exact tier every state dump is followed by the derived PartialEq of the matrix against a freshly "
         "built one; distinct = distinct executor line; non-trivial = non-empty matrix or an operation that must panic")
 TRUSTED = ["Coq 8.16.1 kernel + vm_compute", "Rust executor /verif/harness (Rat = i128 rationals)", "python driver: generators, list-of-rows reference model, stream comparators",
            "hand-written Gallina model coq/Model/{Matrix,MatOps,MatNorms}.v tied to src/matrix/*.rs by differential execution (Rat vs Qc exact; f64/Complex vs primitive floats)"]
@@ -35,7 +41,9 @@ MANIFEST = dict(
           "norms = textbook definitions over any ordered arithmetic and over R; the legacy set_col is refuted on the committed witnesses. "
           "The model is run against the implementation (Rat vs Qc exact, f64/Complex bitwise) on every product shape 0..5 (0..8 thorough), "
           "every operation x every index on small shapes, every ordered pair of editing operations, random histories, with the derived "
-          "PartialEq against a rebuilt matrix after every step; a list-of-rows reference and mpmath search for a failing input."),
+          "PartialEq against a rebuilt matrix after every step; a list-of-rows reference and mpmath search for a failing input (round four: the "
+          "reference also judges the f64 / Complex histories, by tolerance; scalar arguments 0, +-1, 2, 1/2 on every shape; same-object operands; "
+          "op-pairs on single-row, single-column and empty shapes)."),
     note="f64 rounding of the norms / libm powf is tied and searched, not proved; raw (i,j) writes and operand non-mutation are observed at run time only.",
     technique="Coq proof (loop invariants over a representation predicate; no axioms except the stdlib reals for norms_real) + model/implementation differential execution (vm_compute vs Rust executor) + reference-model search",
     design="7 (C03), Appendix E")
@@ -337,6 +345,7 @@ def generate(rng, tier):
     for (r, c) in [(0, 0), (0, 2), (1, 1), (2, 3), (3, 2), (4, 4)]:
         cases.append(mk_scale_l((r, c, [norm_val(g) for _ in range(r * c)]), val(g, 'f64')))
     cases.append(mk('rat', distinct_mat(1, 1), [("eye", n) for n in range(B + 2)], "eye-sizes"))
+    cases += gen_special(rng, tier)
     # (c) random histories
     g = rng.fork("hist")
     nh = 400 if tier == "thorough" else 80
@@ -355,9 +364,144 @@ def generate(rng, tier):
         cases.append(mk(elt, m0, ops, "history-" + elt))
     return cases
 
+# ---- round four (package specA): special values of every scalar argument, both operands the same object, degenerate shapes in the
+# op-pairs, special values in the float kinds (findings/special-values-specA.md)
+SCALAR_CLASSES = [Fraction(0), Fraction(1), Fraction(-1), Fraction(2), Fraction(1, 2)]
+EXTRA_PAIR_SHAPES = [(1, 3), (3, 1), (0, 2), (2, 0), (1, 2), (3, 3)]
+CPLX_SCALARS = [1, -1, 1j, -1j, complex(0.6, 0.8), complex(-0.8, 0.6), 1 + 1j, 2, 0.5, 2j, -0.5j, 0]
+F64_SCALARS = [0.0, -0.0, 1.0, -1.0, 2.0, 0.5, -2.0]
+
+def rot(g, xs, k):
+    if k >= len(xs): return list(xs)
+    o = g.below(len(xs))
+    return [xs[(o + i) % len(xs)] for i in range(k)]
+
+def mk_ctor(elt, r, c, x, family="ctor"):
+    ar, fl = ARITH[elt], FLAT[elt]
+    term = ("(@fl_mat %s %s (@mat_new %s %d %d %s) ++ fl_nat %d ++ fl_nat 1 ++ @fl_mat %s %s (@mat_empty %s) ++ fl_nat 0 ++ fl_nat 1)"
+            % (ar, fl, ar, r, c, coq_scalar(elt, x), r * c, ar, fl, ar))
+    return Case(elt, "mat.ctor %d %d %s" % (r, c, tok_scalar(elt, x)), term, meta={"kind": "ctor", "r": r, "c": c, "x": x},
+                family=family, nontrivial=(r * c > 0))
+
+def gen_special(rng, tier):
+    cases = []
+    quick = tier == "quick"
+    S = 3
+    # (k) the constructors: Matrix::new(r, c, x) for every shape 0..4 x 0..4 and fill values 0, 1, -1, 2, 1/2, 7/3 (the library itself
+    # only ever calls new(.., zero)); Matrix::empty()
+    g = rng.fork("ctor")
+    for r in range(5):
+        for c in range(5):
+            for x in (rot(g, SCALAR_CLASSES + [Fraction(7, 3)], 2) if quick else SCALAR_CLASSES + [Fraction(7, 3)]):
+                cases.append(mk_ctor('rat', r, c, x))
+            cases.append(mk_ctor('f64', r, c, g.choice([0.0, -0.0, 1.5, -2.0])))
+    # (b') dimensions above 8 (a blocked / strided loop shows its remainder handling from the second block on): products, transposes,
+    # row / column access, matrix * vector on shapes with a dimension in 9..20
+    g = rng.fork("big-shapes")
+    dims = [9, 12, 16, 17, 20]      # (a 33 x 33 rational history overflows coqc's stack under vm_compute: the model side sets the limit)
+    for t in range(6 if quick else 30):
+        r, k, c = g.choice(dims), g.choice(dims + [1, 2]), g.choice(dims + [1, 3])
+        cases.append(mk('rat', rmat(g, 'rat', r, k), [("mul", rmat(g, 'rat', k, c))], "big-shapes"))
+    for t in range(3 if quick else 12):
+        r, c = g.choice(dims), g.choice(dims)
+        if t % 3 == 0: c = r
+        m0 = rmat(g, 'rat', r, c)
+        ops = [("transpose",), ("multiply", rvec(g, 'rat', c)), ("get_col", c - 1), ("get_row", r - 1), ("set_col", c - 1, rvec(g, 'rat', r)),
+               ("swap_rows", 0, r - 1), ("transpose_in_place",), ("fill_band", g.range(-2, 2), val(g, 'rat')), ("delete_row", c // 2),
+               ("resize", c + 1, r - 1), ("neg",), ("scale", Fraction(3, 2)), ("add_assign_s", Fraction(1)), ("fill_diag", Fraction(7))]
+        cases.append(mk('rat', m0, ops, "big-shapes"))
+        cases.append(mk_norms((r, c, [norm_val(g) for _ in range(r * c)]), "big-shapes-norms"))
+    # (v) every operation with a scalar argument x the value classes 0, 1, -1, 2, 1/2 x every shape 0..3 x 0..3 (distinct non-zero
+    # entries, so that a fast path returning the wrong shape, the operand itself or a stale buffer shows)
+    g = rng.fork("scalar-classes")
+    for r in range(S + 1):
+        for c in range(S + 1):
+            m0 = distinct_mat(r, c)
+            xs = rot(g, SCALAR_CLASSES, 3) if quick else SCALAR_CLASSES
+            readers = []
+            for x in xs:
+                readers += [("scale", x)] + ([("div", x)] if x != 0 else [])
+                for name in ("mul_assign_s", "add_assign_s", "sub_assign_s", "fill", "fill_diag"):
+                    cases.append(mk('rat', m0, [(name, x)], "scalar-classes"))
+                if x != 0: cases.append(mk('rat', m0, [("div_assign_s", x)], "scalar-classes"))
+                cases.append(mk('rat', m0, [("fill_tridiag", x, SCALAR_CLASSES[(SCALAR_CLASSES.index(x) + 1) % 5], x)], "scalar-classes"))
+                if r > 0: cases.append(mk('rat', m0, [("fill_row", g.below(r), x)], "scalar-classes"))
+                if c > 0: cases.append(mk('rat', m0, [("fill_col", g.below(c), x)], "scalar-classes"))
+                cases.append(mk('rat', m0, [("fill_band", g.range(-max(r - 1, 0), max(c - 1, 0)), x)], "scalar-classes"))
+            # operands of special structure: the zero matrix, the matrix itself (m + m, m - m as separate objects), the identity
+            zero = (r, c, [Fraction(0)] * (r * c))
+            readers += [("add", zero), ("sub", zero), ("add", m0), ("sub", m0), ("multiply", [Fraction(0)] * c), ("multiply", [Fraction(1)] * c)]
+            if c > 0: readers += [("multiply", [Fraction(1) if j == c - 1 else Fraction(0) for j in range(c)])]
+            eye_c = (c, c, [Fraction(1) if i == j else Fraction(0) for i in range(c) for j in range(c)])
+            eye_r = (r, r, [Fraction(1) if i == j else Fraction(0) for i in range(r) for j in range(r)])
+            readers += [("mul", eye_c), ("mul_l", eye_r), ("mul", (c, 2, [Fraction(0)] * (2 * c)))]
+            # unit-triangular and permutation operands (unit diagonal / a single 1 per row, but not the identity)
+            readers += [("mul", (c, c, [Fraction(1) if i == j else (Fraction(2 + i + j) if j > i else Fraction(0)) for i in range(c) for j in range(c)])),
+                        ("mul_l", (r, r, [Fraction(1) if i == j else (Fraction(-1 - i - j) if j < i else Fraction(0)) for i in range(r) for j in range(r)])),
+                        ("mul", (c, c, [Fraction(1) if j == (i + 1) % max(c, 1) else Fraction(0) for i in range(c) for j in range(c)]))]
+            # both operands the SAME object
+            readers += [("add_self", m0), ("sub_self", m0), ("mul_self", m0)]
+            cases.append(mk('rat', m0, readers, "special-operands"))
+            for name in ("add_assign", "sub_assign", "add_assign_own", "sub_assign_own"):
+                cases.append(mk('rat', m0, [(name, zero), (name, m0)], "special-operands"))
+    # the same-object forms after an editing step (the operand is the current state)
+    g = rng.fork("same-object-history")
+    for t in range(12 if quick else 100):
+        r, c = g.range(0, 4), g.range(0, 4)
+        if t % 2 == 0: c = r
+        m0 = rmat(g, 'rat', r, c)
+        ops = []
+        for _ in range(g.range(1, 3)):
+            rr, cc = shape_after(m0, ops)
+            ops.append(EDIT_OPS[g.below(len(EDIT_OPS))][1](g, rr, cc))
+            cur = state_after(m0, ops).tup()
+            ops.append((g.choice(["add_self", "sub_self", "mul_self", "mul_self"]), cur))
+        cases.append(mk('rat', m0, ops, "same-object-history"))
+    # (p') op-pairs on the degenerate shapes: single row, single column, empty with a non-zero dimension, 3x3
+    g = rng.fork("op-pairs-extra")
+    for (r, c) in (rot(g, EXTRA_PAIR_SHAPES, 1) if quick else EXTRA_PAIR_SHAPES):
+        m0 = distinct_mat(r, c)
+        for a in EDIT_OPS:
+            for b in EDIT_OPS:
+                cases.append(mk('rat', m0, op_chain(g, m0, [a, b]), "op-pairs-%dx%d" % (r, c)))
+    # (f) f64 * matrix: scalar classes 0, -0.0, 1, -1, 2, 1/2 on empty / single-row / single-column / wide / tall shapes
+    g = rng.fork("scale_l-classes")
+    for (r, c) in [(0, 0), (0, 2), (2, 0), (1, 1), (1, 3), (3, 1), (2, 3), (3, 2)]:
+        for x in (rot(g, F64_SCALARS, 3) if quick else F64_SCALARS):
+            cases.append(mk_scale_l((r, c, [norm_val(g) for _ in range(r * c)]), x, "scale_l-classes"))
+    # (z) the float kinds with special values: Complex<f64> scalars on the axes / of unit modulus / with |re| = |im|, f64 scalars
+    # 0, -0.0, +-1, 2, 1/2; entries drawn from the same menus.  Judged by the numpy list-of-rows reference (tolerance) and tied bitwise.
+    g = rng.fork("float-classes")
+    for elt, menu in (('cplx', CPLX_SCALARS), ('f64', F64_SCALARS)):
+        conv = complex if elt == 'cplx' else float
+        for (r, c) in [(1, 1), (2, 2), (2, 3), (3, 1)]:
+            m0 = (r, c, [conv(menu[g.below(len(menu))]) if g.chance(1, 2) else val(g, elt) for _ in range(r * c)])
+            for x in (rot(g, menu, 4) if quick else menu):
+                x = conv(x)
+                ops = [("scale", x), ("mul_assign_s", x), ("add_assign_s", x), ("neg",), ("sub_assign_s", x), ("fill_diag", x),
+                       ("add", (r, c, [conv(menu[g.below(len(menu))]) for _ in range(r * c)])), ("multiply", [conv(menu[g.below(len(menu))]) for _ in range(c)]),
+                       ("mul", (c, 2, [conv(menu[g.below(len(menu))]) for _ in range(2 * c)]))]
+                if x != 0: ops = [("div", x), ("div_assign_s", x)] + ops
+                cases.append(mk(elt, m0, ops, "float-classes-" + elt))
+    # (n') norms on special patterns: all entries equal (ties), one non-zero entry in a corner, entries +-x of equal magnitude,
+    # single row / single column; norm_p at p = 1 and p = 2 (entrywise 1-norm and Frobenius) and p = 1/2 on each
+    g = rng.fork("norm-classes")
+    shapes = [(1, 1), (1, 4), (4, 1), (2, 3), (3, 2), (3, 3)]
+    for (r, c) in (rot(g, shapes, 3) if quick else shapes):
+        pats = [[-2.5] * (r * c), [0.0] * (r * c - 1) + [-3.0], [-3.0] + [0.0] * (r * c - 1),
+                [(1.5 if (i + j) % 2 == 0 else -1.5) for i in range(r) for j in range(c)], [-0.0] * (r * c)]
+        for vals in pats:
+            m0 = (r, c, vals)
+            cases.append(mk_norms(m0, "norm-classes"))
+            for pp in (1.0, 2.0, 0.5):
+                cases.append(mk_norm_p(m0, pp, "norm-classes"))
+    return cases
+
 def case_from_json(j):
     if j.get("meta", {}).get("kind") == "norms":
         m0 = j["meta"]["m0"]; return mk_norms((m0[0], m0[1], [float(x) for x in m0[2]]), "corpus")
+    if j.get("meta", {}).get("kind") == "ctor":
+        mm = j["meta"]; return mk_ctor(j["elt"], mm["r"], mm["c"], Fraction(mm["x"]) if j["elt"] == 'rat' else float(mm["x"]), "corpus")
     if j.get("meta", {}).get("kind") == "scale_l":
         m0 = j["meta"]["m0"]; return mk_scale_l((m0[0], m0[1], [float(x) for x in m0[2]]), float(j["meta"]["x"]), "corpus")
     if j.get("meta", {}).get("kind") == "norm_p":
@@ -376,7 +520,7 @@ def case_from_json(j):
             for k, a in zip(kinds, o[1:]):
                 if k == 's': out.append(Fraction(a))
                 elif k == 'v': out.append([Fraction(x) for x in a])
-                elif k == 'm': out.append((a[0], a[1], [Fraction(x) for x in a[2]]))
+                elif k in 'mM': out.append((a[0], a[1], [Fraction(x) for x in a[2]]))
                 else: out.append(a)
             return tuple(out)
         ops = [cop(o) for o in ops]
@@ -387,6 +531,12 @@ def case_from_json(j):
 def oracle(case, items):
     if case.meta.get("kind") in ("norms", "norm_p"):
         return norms_oracle(case, items)
+    if case.meta.get("kind") == "ctor":
+        r, c, x = case.meta["r"], case.meta["c"], case.meta["x"]
+        exp = [('i', r), ('i', c)] + ref_items_scalar(case.elt, x) * (r * c) + [('i', r * c), ('i', 1), ('i', 0), ('i', 0), ('i', 0), ('i', 1)]
+        if items != exp:
+            return "Matrix::new(%d, %d, %r) / Matrix::empty() differ from their definitions: got %r, expected %r" % (r, c, x, items[:14], exp[:14])
+        return None
     if case.meta.get("kind") == "scale_l":
         r, c, vals = case.meta["m0"]; x = case.meta["x"]
         exp = ([('i', r), ('i', c)] + [('f', f64_bits(v * x)) for v in vals]) * 2
@@ -394,6 +544,11 @@ def oracle(case, items):
             return "f64 * matrix / matrix * f64 differ from the entrywise products: got %r, expected %r" % (items[:12], exp[:12])
         return None
     if case.elt != 'rat':
+        # f64 / Complex<f64>: the same list-of-rows reference evaluated with numpy scalars, compared with a tolerance relative to
+        # the largest magnitude of the history (round four: the float kinds had no reference of their own, only the model tie)
+        d = streams_close_float(case.elt, ref_hist_float(case.elt, case.meta["m0"], case.meta["ops"]), items)
+        if d:
+            return "dense %s matrix history disagrees with the list-of-rows reference: %s" % (case.elt, d)
         return None
     exp = ref_hist('rat', case.meta["m0"], case.meta["ops"], eq=True)
     d = streams_equal_exact(exp, items)
